@@ -23,7 +23,7 @@ RULE = ("case = one execution of a corpus plan with a suspension (no helper plan
         "non-trivial = the suspension was accepted while a plan message was outstanding")
 ASSUMPTIONS = ["release times are virtual-time timers on the loop", "the replay part is judged by the C04 automaton"]
 REQUIRED_COUNTERS = {"executions": 500, "suspensions_judged": 400, "with_pre_post": 150, "stops_checked": 150,
-                     "justifications_checked": 100, "two_call_histories": 10}
+                     "justifications_checked": 100, "two_call_histories": 10, "rewindable_flag_checks": 300}
 MANIFEST = {
     "technique": "ordering oracle over the merged message / ledger / virtual-time log for every accepted suspension, on an "
                  "exhaustive suspension-coordinate sweep (single, overlapping, with helper plans, across call boundaries)",
@@ -65,6 +65,11 @@ def gen_cases(tier, seed):
     cases = sweepcheck.gen_cases(tier, seed, PLANS_Q, PLANS_T, ["suspend", "suspend-pp", "suspend-call"],
                                  spec_extra={"record_interruptions": True},
                                  pairs=[("suspend", "suspend"), ("suspend-pp", "suspend"), ("suspend", "suspend-pp")])
+    if tier == "quick":   # a few overlapping pairs also on every change
+        for p_ in PLANS_Q[:3]:
+            for (k1, k2) in [("suspend", "suspend"), ("suspend-pp", "suspend")]:
+                cases.append({"plan": p_, "kind": k1, "kind2": k2, "pairs": 10, "seed": seed,
+                              "spec_extra": {"record_interruptions": True}})
     for first in ("clearcp", "scan", "norun"):
         cases.append({"two_call": first, "then": "scan", "seed": seed})
     return cases
@@ -188,6 +193,14 @@ def judge(ex, ref, case):
                 if rec.count(justification) != open_runs:
                     problems.append(("justification-not-recorded", f"records {rec} for {open_runs} open run(s)"))
     aprob, _ = run_automaton(log)
+    # when everything is over the engine's rewindable flag is what the same plan leaves without any suspension
+    # (a suspension switches rewinding off while it is in effect and must restore it, also when suspensions overlap)
+    ra, rr = getattr(ex, "rewindable_after", None), getattr(ref, "rewindable_after", None)
+    if ra is not None and rr is not None and not ex.forced_cleanup and ex.final_state == "idle" and not ex.spec.get("then"):
+        counters["rewindable_flag_checks"] = 1
+        if ra != rr and not any(e[0] == "state" and e[1] in ("aborting", "stopping", "halting") for e in log):
+            problems.append(("rewindable-flag-not-restored" + (":overlapping" if overlapping else ""),
+                             f"RE.rewindable is {ra} after the call, {rr} after the same plan without suspensions"))
     if ex.spec.get("then"):
         r2 = dict(ex.calls).get("RE2")
         if r2 is not None and r2[0] == "exc":
